@@ -14,6 +14,74 @@ fn min_len(z: u32) -> usize {
     bits.div_ceil(7).clamp(1, 5)
 }
 
+
+// variable-length integers read while the context is inside a pushed input region (a chunk of an evolved record) and written
+// while a chunk buffer is active: leaf codecs that call the varint primitives directly, as fields of a derived record
+mod region_types {
+    use desert::{BinaryCodec, BinaryDeserializer, BinaryInput, BinaryOutput, BinarySerializer, DeserializationContext, SerializationContext};
+
+    #[derive(Debug, Clone, Copy, PartialEq)]
+    pub struct VU(pub u32);
+    #[derive(Debug, Clone, Copy, PartialEq)]
+    pub struct VI(pub i32);
+
+    impl BinarySerializer for VU {
+        fn serialize<O: BinaryOutput>(&self, c: &mut SerializationContext<O>) -> desert::Result<()> {
+            c.write_var_u32(self.0);
+            Ok(())
+        }
+    }
+    impl BinaryDeserializer for VU {
+        fn deserialize(c: &mut DeserializationContext<'_>) -> desert::Result<Self> {
+            Ok(VU(c.read_var_u32()?))
+        }
+    }
+    impl BinarySerializer for VI {
+        fn serialize<O: BinaryOutput>(&self, c: &mut SerializationContext<O>) -> desert::Result<()> {
+            c.write_var_i32(self.0);
+            Ok(())
+        }
+    }
+    impl BinaryDeserializer for VI {
+        fn deserialize(c: &mut DeserializationContext<'_>) -> desert::Result<Self> {
+            Ok(VI(c.read_var_i32()?))
+        }
+    }
+
+    #[derive(Debug, Clone, PartialEq, BinaryCodec)]
+    #[evolution(FieldAdded("b", VU(0)), FieldAdded("c", VI(0)))]
+    pub struct VarHolder {
+        pub pad: u64,
+        pub a: VU,
+        pub b: VU,
+        pub c: VI,
+        pub d: VI,
+    }
+}
+
+/// the same value as chunk-0, chunk-1 and chunk-2 field of an evolved record: bytes must be the reference varints in their
+/// chunks and decode back (DeserializationContext inside regions with non-zero start; SerializationContext with chunk buffers)
+fn check_in_regions(x: u32) -> Option<String> {
+    use region_types::*;
+    let v = VarHolder { pad: 0x0102_0304_0506_0708, a: VU(x), b: VU(x), c: VI(x as i32), d: VI(x as i32) };
+    let bytes = match desert::serialize_to_byte_vec(&v) {
+        Ok(b) => b,
+        Err(e) => return Some(format!("encode failed: {e}")),
+    };
+    let u = vu_bytes(x);
+    let i = vi_bytes(x as i32);
+    let c0: Vec<u8> = [&0x0102_0304_0506_0708u64.to_be_bytes()[..], &u[..], &i[..]].concat();
+    let expected: Vec<u8> = [&[2u8][..], &vi_bytes(c0.len() as i32)[..], &vi_bytes(u.len() as i32)[..], &vi_bytes(i.len() as i32)[..], &c0[..], &u[..], &i[..]].concat();
+    if bytes != expected {
+        return Some(format!("record bytes {} expected {}", hex(&bytes), hex(&expected)));
+    }
+    match desert::deserialize::<VarHolder>(&bytes) {
+        Ok(back) if back == v => None,
+        Ok(back) => Some(format!("read back {back:?}")),
+        Err(e) => Some(format!("decode failed: {e}")),
+    }
+}
+
 struct VarScratch {
     vec: Vec<u8>,
     bm: BytesMut,
@@ -103,6 +171,12 @@ pub fn c11(ctx: &mut Ctx, acc: &mut Acc) -> i32 {
             },
             |_| None,
         );
+        if !exhaustive {
+            // (the exhaustive tier samples this sub-check below: a derived record per value would dominate its run time)
+            if let monitors::Outcome::Done(Some(w)) = monitors::guarded(|| check_in_regions(x), |_| None) {
+                acc.violation(format!("C11|in_region|{}", w.split(' ').next().unwrap_or("")), J::obj().with("check", J::s("C11")).with("mode", J::s("varint_in_region")).with("value", J::u(x)).with("what", J::s(w)));
+            }
+        }
         match r {
             monitors::Outcome::Done((None, None)) => {}
             monitors::Outcome::Done((a, b)) => {
@@ -130,6 +204,15 @@ pub fn c11(ctx: &mut Ctx, acc: &mut Acc) -> i32 {
         }
         n = hi - lo;
         acc.add("exhaustive_bit_patterns", n);
+        // inside regions: every 64th bit pattern of the slice plus its top end
+        let mut k = 0u64;
+        for x in (lo..hi).step_by(64).chain(hi.saturating_sub(4096)..hi) {
+            if let monitors::Outcome::Done(Some(w)) = monitors::guarded(|| check_in_regions(x as u32), |_| None) {
+                acc.violation(format!("C11|in_region|{}", w.split(' ').next().unwrap_or("")), J::obj().with("check", J::s("C11")).with("mode", J::s("varint_in_region")).with("value", J::u(x)).with("what", J::s(w)));
+            }
+            k += 1;
+        }
+        acc.add("values_checked_inside_regions", k);
         acc.evaluations += 2 * n;
         acc.distinct_extra += 2 * n; // disjoint ranges: every (kind, bit pattern) is a distinct case
     } else {
@@ -167,6 +250,9 @@ pub fn c11(ctx: &mut Ctx, acc: &mut Acc) -> i32 {
         acc.add("sampled_bit_patterns", per_shard);
     }
     acc.add("values_checked", 2 * n);
+    if !exhaustive {
+        acc.add("values_checked_inside_regions", n);
+    }
     if ctx.shard == 0 {
         for x in [0u32, 127, 128, 16383, 16384, u32::MAX] {
             acc.sample(J::obj().with("u32", J::u(x)).with("bytes", J::s(hex(&vu_bytes(x)))));
